@@ -41,7 +41,8 @@ FLOORS = {
     "quick": {"honest_proofs": 1, "verifications": 1, "corrupt_rejected": 1, "corrupt_returned_truth": 1,
               "withheld_hashed": 1, "kind_drop": 1, "kind_flip": 1, "kind_splice": 1, "kind_otherkey": 1,
               "kind_pair": 1, "root_random": 1, "root_sibling": 1, "root_older": 1, "root_blank": 1,
-              "key_proper_prefix": 1, "key_extension": 1, "key_stored": 1, "independent_verifier": 1},
+              "key_proper_prefix": 1, "key_extension": 1, "key_stored": 1, "independent_verifier": 1,
+              "moving_proof_rounds": 1, "moving_proof_after_batch": 1, "moving_proof_root_reassigned": 1},
 }
 FLOORS["thorough"] = dict(FLOORS["quick"])
 
@@ -144,7 +145,81 @@ def corruptions(proof, rnd, other_proof, foreign_proof):
     yield ("empty", None, [])
 
 
+def complete(A, ma, refa, k, ctx, where=""):
+    """completeness of the honest proof of key k in trie A (model ma, reference refa);
+    returns the proof as nested lists"""
+    proof = cut(A.get_proof, k)
+    proof = [listify(n) for n in proof]
+    ref_path = [listify(node.raw()) for _, node in refa.path_nodes(nibs(k))]
+    for n in proof:
+        if n not in ref_path:
+            raise Violation("proof-off-path", "%sget_proof(%s) contains a node that is not on the key's path in the canonical trie" % (where, hx(k)))
+    truth = ma.get(k, b"")
+    got = cut(HexaryTrie.get_from_proof, A.root_hash, k, tuple(proof), expect=(BadTrieProof,))
+    if isinstance(got, Raised):
+        raise Violation("proof-incomplete", "%sget_from_proof rejects get_proof(%s) (%d nodes, canonical path has %d): %s" % (
+            where, hx(k), len(proof), len(ref_path), got.exc))
+    if got != truth or got != cut(A.get, k):
+        raise Violation("proof-complete-value", "%sget_from_proof(root, %s, get_proof) = %s, trie holds %s" % (where, hx(k), hx(got), hx(truth)))
+    iv = independent_verify(A.root_hash, k, proof)
+    if iv != truth:
+        raise Violation("proof-incomplete", "%sindependent hash-pointer verifier gets %r from get_proof(%s), trie holds %s "
+                        "(proof has %d nodes, canonical path %d)" % (where, iv if iv is None else hx(iv), hx(k), hx(truth), len(proof), len(ref_path)))
+    ctx.count("independent_verifier")
+    ctx.count("honest_proofs")
+    return proof
+
+
+class MovingProofRunner(hh.Runner):
+    """Completeness while the root moves: after every operation of a generated history (plain,
+    inside an open squash_changes block, after its commit or abort, after root_hash was pointed at
+    an earlier root of a non-pruning trie and back) the honest proofs of a fixed small set of
+    keys - asked for again and again, so anything remembered from an earlier root is exposed -
+    plus a few content-aimed keys must verify against the CURRENT root."""
+
+    def __init__(self, case, ctx):
+        super().__init__(case, ctx)
+        self.roots = []
+        self.fixed = None
+
+    def look(self, trie, model, where):
+        ref = RefTrie(model)
+        if self.fixed is None:
+            self.fixed = [b"", b"\x12", b"\x00\x01"]
+        keys = list(self.fixed) + sorted(model)[:2]
+        extra = gen.probe_keys(self.rnd, model, extra=1)
+        keys += self.rnd.sample(extra, min(3, len(extra)))
+        for k in keys:
+            complete(trie, model, ref, k, self.ctx, where)
+        if model and len(self.fixed) < 6:
+            self.fixed.append(self.rnd.choice(sorted(model)))
+        self.ctx.count("moving_proof_rounds")
+
+    def after_op(self, op):
+        self.look(self.trie, self.model, "after %s: " % op[0])
+        if not self.prune:
+            self.roots.append((self.trie.root_hash, dict(self.model)))
+            if len(self.roots) > 1 and self.rnd.random() < 0.3:
+                old_root, old_model = self.rnd.choice(self.roots[:-1])
+                cur = self.trie.root_hash
+                self.trie.root_hash = old_root
+                self.look(self.trie, old_model, "after root_hash was pointed at an earlier root: ")
+                self.trie.root_hash = cur
+                self.look(self.trie, self.model, "after root_hash was pointed back: ")
+                self.ctx.count("moving_proof_root_reassigned")
+        if op[0] == "batch":
+            self.ctx.count("moving_proof_after_batch")
+
+    def after_batch_op(self, btrie, bmodel, op):
+        self.look(btrie, bmodel, "batch trie inside an open block: ")
+        self.look(self.trie, self.model, "outer trie while a block is open: ")
+
+
 def run_case(case, ctx):
+    if case.get("engine") == "hh":
+        MovingProofRunner(case, ctx).run()
+        ctx.evaluated()
+        return
     rnd = random.Random(case.get("pseed", 0))
     A, dba, ma, refa = hs.build({"prune": False, "hist": case["hist"]})
     older = (A.root_hash, dict(ma))
@@ -174,25 +249,8 @@ def run_case(case, ctx):
             kc = "absent"
         ctx.count("key_" + kc)
         # ---------------------------------------------------------------- completeness
-        proof = cut(A.get_proof, k)
-        proof = [listify(n) for n in proof]
-        ref_path = [listify(node.raw()) for _, node in refa.path_nodes(nibs(k))]
-        for n in proof:
-            if n not in ref_path:
-                raise Violation("proof-off-path", "get_proof(%s) contains a node that is not on the key's path in the canonical trie" % hx(k))
+        proof = complete(A, ma, refa, k, ctx)
         truth = ma.get(k, b"")
-        got = cut(HexaryTrie.get_from_proof, A.root_hash, k, tuple(proof), expect=(BadTrieProof,))
-        if isinstance(got, Raised):
-            raise Violation("proof-incomplete", "get_from_proof rejects get_proof(%s) (%d nodes, canonical path has %d): %s" % (
-                hx(k), len(proof), len(ref_path), got.exc))
-        if got != truth or got != cut(A.get, k):
-            raise Violation("proof-complete-value", "get_from_proof(root, %s, get_proof) = %s, trie holds %s" % (hx(k), hx(got), hx(truth)))
-        iv = independent_verify(A.root_hash, k, proof)
-        if iv != truth:
-            raise Violation("proof-incomplete", "independent hash-pointer verifier gets %r from get_proof(%s), trie holds %s "
-                            "(proof has %d nodes, canonical path %d)" % (iv if iv is None else hx(iv), hx(k), hx(truth), len(proof), len(ref_path)))
-        ctx.count("independent_verifier")
-        ctx.count("honest_proofs")
         hashed_on_path = [i for i, n in enumerate(proof) if i == 0 or len(rlp_enc(n)) >= 32]
         # ------------------------------------------------------------------- soundness
         other_proof = [listify(n) for n in cut(B.get_proof, k)]
@@ -233,6 +291,8 @@ def run_case(case, ctx):
 
 def shrink(case, monitor):
     mod = sys.modules[__name__]
+    if case.get("engine") == "hh":
+        return shrink_list(mod, case, monitor, field="ops")
     c = shrink_list(mod, case, monitor, field="hist_b")
     return shrink_list(mod, c, monitor, field="hist")
 
@@ -257,6 +317,13 @@ def run_shard(ctx):
     for i in range(n):
         case = gen_case(rnd, ctx.tier)
         if i == 1:
+            ctx.sample(case)
+        run_case_guarded(mod, case, ctx)
+        if ctx.full:
+            return
+    for i in range(60 if ctx.tier == "quick" else 600):
+        case = hh.gen_history(rnd, rnd.randint(2, 16 if ctx.tier == "quick" else 40), batch_p=0.3)
+        if i == 0:
             ctx.sample(case)
         run_case_guarded(mod, case, ctx)
         if ctx.full:
